@@ -428,6 +428,51 @@ def r10_14(run, model):
            witness="rebuilding \"\u00e9\" (bytes C3 A9) with the string_len / string_get loop of 068_lisp_interp gives a 4-byte string that prints as `Ã©`")
 
 
+def r10_15(run, model):
+    run.rule("R10.15", "literal text is read one way: the type checker validates a literal and the TAST builder parses it again on its own, so "
+                       "every place that turns numeric literal text into a number (`.parse()` in typer/check.rs, typer/tast_builder.rs and the "
+                       "float case of ast/lower.rs) prepares the text identically - a spelling the checker accepts and the builder cannot parse "
+                       "becomes the builder's fallback `0`")
+    LOWER = "crates/ast/src/lower.rs"
+    sites = []
+    for rel in (CHECK, TB_RS, LOWER):
+        for f in model.fns(rel):
+            if f.body is None:
+                continue
+            for c in S.walk(f.body):
+                if c["k"] != "MethodCall" or c["method"] != "parse":
+                    continue
+                txt = S.norm_ws(run.facts.text(rel, c["sp"]))
+                tf = re.search(r"parse::<(\w+)>", txt)
+                kind = tf.group(1) if tf else "_"
+                if kind in ("usize", "u32", "bool") or (rel == LOWER and kind != "f64"):
+                    continue
+                chain = []
+                r = c["recv"]
+                while r["k"] == "MethodCall":
+                    chain.append(r["method"] + "(" + ",".join(S.norm_ws(run.facts.text(rel, a["sp"])) for a in r["args"]) + ")")
+                    r = r["recv"]
+                sites.append((rel, f, c, tuple(reversed(chain)), kind))
+    if len(sites) < 8:
+        raise AnalysisIncomplete(f"only {len(sites)} literal parse sites found")
+    from collections import Counter
+    common = Counter(s_[3] for s_ in sites).most_common(1)[0][0]
+    seq = {}
+    for rel, f, c, chain, kind in sites:
+        seq[(f.name, kind)] = seq.get((f.name, kind), 0) + 1
+        run.ob("R10.15", f"{f.name}|parse::<{kind}> #{seq[(f.name, kind)]} prepares the text like the other literal parsers", chain == common, site(rel, c["sp"]),
+               f"text preparation here: {list(chain) or 'none'}; elsewhere: {list(common) or 'none'}",
+               witness="with `_` accepted between digits everywhere but in the builder's float32 case, `12_345.5f32` is accepted and emitted as `float32 = 0`")
+    run.floor("numeric literal parse sites", len(sites), 8)
+
+
+def r10_16(run, model):
+    """a loop body is unit: effect position (where the back end keeps calls only) never holds a value-producing operation such as a division
+    (shared with C03 R03.14, the loop's children only)"""
+    from rules import c03
+    c03.r03_14(run, model, only=("infer_while_expr",))
+
+
 def run(run, model):
     run.try_rule(r10_12, model)
     run.try_rule(r10_13, model)
@@ -445,4 +490,6 @@ def run(run, model):
     run.try_rule(r10_3, model)
     run.try_rule(r10_4, model)
     run.try_rule(r10_5, model)
+    run.try_rule(r10_15, model)
+    run.try_rule(r10_16, model)
     run.assume("Go's sized integer/float types implement wrap-around, truncating division and IEEE rounding (outside the repository)")
